@@ -30,6 +30,11 @@ Time is explicit: every pass carries its `now` (in time units; `ups` units per s
 code runs after each driver write is a separate `pass` action, so that a schedule fixes the pass times.
 Drivers are registers (`reg`): `ROut.ok` returns the register, `setSrc` is the physical world changing it,
 a successful write stores into it.  The expression layer is abstract: `Env.deps` + `Env.evalE`.
+The error set is keyed by port IDENTITY (the port object), not by port id: a port that is removed and a port created
+later under the same id are two identities (two entries of the port list, `Action.remove` / `Action.create`); the new
+one has no error-set entry and is polled at once, whatever back-off its predecessor was in.  A write submitted by a
+synchronous event handler from inside a pass is an `apiWrite` + `write` right after that pass (the pass has done all
+its reads before it delivers events, and the writer's confirming pass waits for the update lock).
 Not modelled (named in the MANIFEST note): time-dependent expression deps ('second', 'asap' pause rule),
 queue overflow, read/write transforms, latencies (a pass is atomic), the per-port forced-evaluation set and
 enabling/disabling ports at run time (`enabled` is static here) — hence also the branch "a port that is DISABLED when
@@ -265,12 +270,19 @@ def setReg (v : Val) (q : Port) : Port := { q with reg := v }
 /-- `_write_value_queued` called for API request `k` -/
 def enqApi (v : Val) (k : Nat) (q : Port) : Port := { q with writeQ := q.writeQ ++ [(v, .api k)] }
 
+/-- a port comes into existence (`core.ports.load` + `enable()`) or goes away (`remove()`).  The port list declares
+every port identity that ever exists; one that does not exist (yet / any more) is simply not `enabled`. -/
+def setEnabled (b : Bool) (q : Port) : Port := { q with enabled := b }
+
 inductive Action
   | pass (k : PassKind) (now : Nat)
   | setSrc (p : PortId) (v : Val)               -- the physical value behind port p changes
-  | apiWrite (p : PortId) (v : Val) (k : Nat)   -- API request k submits v to port p
+  | apiWrite (p : PortId) (v : Val) (k : Nat)   -- submission k (API request, synchronous event handler) of v to port p
   | eval (p : PortId)
   | write (p : PortId)
+  | create (p : PortId)                         -- port identity p is loaded and enabled
+  | remove (p : PortId)                         -- port identity p is removed
+  | forceEval                                   -- main.force_eval_expressions() (what enable() also does)
   deriving DecidableEq, Repr
 
 def step (P : Params) (E : Env) (s : State) : Action → State
@@ -283,6 +295,9 @@ def step (P : Params) (E : Env) (s : State) : Action → State
              trace := (match s.ports.find? (fun q => q.id == p) with
                        | some q => writeObs E q
                        | none => []) ++ s.trace }
+  | .create p => { s with ports := modPort p (setEnabled true) s.ports }
+  | .remove p => { s with ports := modPort p (setEnabled false) s.ports }
+  | .forceEval => { s with fullEval := true }
 
 def run (P : Params) (E : Env) (s : State) (σ : List Action) : State :=
   σ.foldl (step P E) s
@@ -305,6 +320,9 @@ def keep (H : PortId → Bool) : Action → Bool
   | .apiWrite p _ _ => H p
   | .eval p => H p
   | .write p => H p
+  | .create p => H p
+  | .remove p => H p
+  | .forceEval => true
 
 /-! ### Helpers for the driver -/
 
